@@ -276,6 +276,10 @@ func checkC18(p *Prog, l *Ledger) {
 	if run := exploreScanToken(p); run != nil {
 		checkExtents(p, l, run.m.G, "C18/a-layout/comment-extents")
 	}
+	// (d) renaming: a name is the text written — the scanner hands on each lexeme as the slice of the source it covers
+	// (C09's partition rule), so two spellings that differ in the source stay two names (no normalisation, folding or
+	// truncation that would let a consistent renaming merge or split variables)
+	l.AsOnly(map[string]string{"C09/S1-partition": "C18/d-renaming/lexeme-is-source"}, func() { checkC09(p, l) })
 	// (e) parentheses: evaluating a Grouping node does nothing but evaluate its operand
 	checkGroupingTransparent(p, l, "C18/e-parentheses/grouping-transparent")
 	// (d) renaming: the initialisers of an object literal run in the order they are written (the parser's Keys), not in
